@@ -267,6 +267,16 @@ class Paths:
                 yield "norm", None, writes, facts
             return
         st = stmts[i]
+        if st["k"] == "let" and "els" in st and "init" in st:
+            # `let PAT = e else { diverge };` is `if let PAT = e { rest } else { diverge }`
+            for oc, v, w, f in self.run_cond({"k": "let_cond", "pat": st["pat"], "init": st["init"]}, writes, facts):
+                if oc[0] != "cond":
+                    yield oc, v, w, f
+                elif oc[1]:
+                    yield from self.block(b, i + 1, w, f)
+                else:
+                    yield from self.run(st["els"], w, f)
+            return
         if st["k"] == "let":
             if "init" not in st:
                 yield from self.block(b, i + 1, writes, facts)
